@@ -899,6 +899,11 @@ impl<P: Xof<SEED_SIZE>, const SEED_SIZE: usize> Poplar1<P, SEED_SIZE> {
         idpf_random: &[[u8; 16]; 2],
         poplar_random: &[[u8; SEED_SIZE]; 3],
     ) -> Result<(Poplar1PublicShare, Vec<Poplar1InputShare<SEED_SIZE>>), VdafError> {
+        if self.bits == 0 {
+            return Err(VdafError::Uncategorized(
+                "the number of input bits must be at least one".to_string(),
+            ));
+        }
         if input.len() != self.bits {
             return Err(VdafError::Uncategorized(format!(
                 "unexpected input length ({})",
@@ -1101,6 +1106,17 @@ impl<P: Xof<SEED_SIZE>, const SEED_SIZE: usize> Aggregator<SEED_SIZE, 16>
                 )))
             }
         };
+
+        // Reject shares produced by a differently parameterized instance before indexing into
+        // them. Shares decoded from the wire with this instance always pass.
+        if self.bits == 0
+            || public_share.bits() != self.bits
+            || input_share.corr_inner.len() != self.bits - 1
+        {
+            return Err(VdafError::Uncategorized(
+                "input share or public share does not match the VDAF instance".to_string(),
+            ));
+        }
 
         if usize::from(agg_param.level) < self.bits - 1 {
             let mut corr_prng = self.init_prng::<_, _, Field64>(
